@@ -32,10 +32,12 @@ def setup(ctx):
         tab = kw.get("table") or (args[1] if len(args) > 1 else None) or I_.global_name("core", "PUBLIC_TABLE")
         fm = I_.global_name("formulas", "formula")
         Hh, Oo, Dd = I_.getattr(tab, "H"), I_.getattr(tab, "O"), I_.getattr(tab, "D")
-        if s == "H2O@0.9982n":
-            return I_.call(fm, [{Hh: sp.Integer(2), Oo: sp.Integer(1)}], {"natural_density": sp.Rational("0.9982")})
-        if s == "D2O@0.9982n":
-            return I_.call(fm, [{Dd: sp.Integer(2), Oo: sp.Integer(1)}], {"natural_density": sp.Rational("0.9982")})
+        import re as _re
+        mm = _re.fullmatch(r"(H2O|D2O)@([0-9.]+)(n|i|)", s) if isinstance(s, str) else None
+        if mm:
+            hyd = Hh if mm.group(1) == "H2O" else Dd
+            kw_ = {"natural_density" if mm.group(3) == "n" else "density": sp.Rational(mm.group(2))}
+            return I_.call(fm, [{hyd: sp.Integer(2), Oo: sp.Integer(1)}], kw_)
         raise AnalysisError(f"unexpected formula string {s!r} reaches the parser in the D2O routines")
     w = neutron_world(ctx, stubs={"formulas.parse_formula": parsed})
     w.I.module_cache[("core", "PUBLIC_TABLE")] = w.table
